@@ -29,25 +29,50 @@ Theorem C13_quiesced_reachable : forall n steps st, exec (init n) steps = Some s
 Proof. intros n steps st H. exact (quiesced_exec _ _ _ (quiesced_init n) H). Qed.
 Print Assumptions C13_quiesced_reachable.
 
-(* Callbacks are balanced: the callback sequence of every run is a word of the automaton (an open exactly
-   once and first, at most one close, nothing after the close) ... *)
+(* Callbacks are balanced and never overlap a close: the callback sequence of every run - with a begin and an
+   end event for each packet / request callback - is a word of the automaton (an open exactly once and first,
+   at most one close, a session's close only while none of its callbacks is in progress, a connection's close
+   only while its reader is in no callback, nothing after the close).
+   This is where the waits-for edges are used: the proof (Proofs.traced_step, cases SessFinish and PacketBegin)
+   needs the invariant Proofs.linv, i.e. "a session finishes only when every connection attached to it is
+   closed" (ServerSession.run: sc.Close(); <-sc.done) and "a connection is closed - and reports itself to its
+   session, removeConn - only after its reader goroutine has returned" (ServerConn.run: nconn.Close();
+   reader.wait(); session.removeConn(sc)).  A model in which the connection tells the session before waiting
+   for its reader does not satisfy linv and produces the word of C13_example_seed below, which is illegal. *)
 Theorem C13_callbacks_legal : forall n steps st, exec (init n) steps = Some st -> accept (trace st) = true.
 Proof. exact trace_accepted. Qed.
 Print Assumptions C13_callbacks_legal.
 
+(* The two waits-for edges as a state invariant of every reachable state: no reader goroutine of a connection
+   attached to a closed session is running, so none is inside (or can enter) a packet callback of it. *)
+Theorem C13_closed_session_has_no_reader : forall n steps st s y,
+  exec (init n) steps = Some st -> nnth s (sesss st) = Some y -> s_st y = Closed ->
+  forall c x, nnth c (conns st) = Some x -> c_busy x <> Some s /\ (c_sess x = Some s -> c_reader x = false).
+Proof. exact closed_session_has_no_reader. Qed.
+Print Assumptions C13_closed_session_has_no_reader.
+
 (* ... and once Server.Close has returned every opened connection and session has had exactly one close. *)
 Theorem C13_callbacks_balanced : forall n steps st,
   exec (init n) steps = Some st -> all_closed st = true ->
-  exists a, arun (mkA [] []) (trace st) = Some a /\ abalanced a = true.
+  exists a, arun a0 (trace st) = Some a /\ abalanced a = true.
 Proof. exact balanced_when_all_closed. Qed.
 Print Assumptions C13_callbacks_balanced.
 
 (* In every legal word: after a session's close notification nothing mentions that session any more (no
-   packet callback, no request callback, no second close) ... *)
+   packet callback begins or returns, no request callback, no second close) ... *)
 Theorem C13_no_callback_after_session_close : forall w1 s w2,
   accept (w1 ++ CbSessClose s :: w2) = true -> forallb (fun x => negb (about_sess s x)) w2 = true.
 Proof. exact accept_no_callback_after_session_close. Qed.
 Print Assumptions C13_no_callback_after_session_close.
+
+(* ... and at the close notification every callback of the session that had begun has returned: pend_sess
+   counts the begun-and-not-returned callbacks run by other goroutines, pend_conn c is s + 1 while the reader
+   of connection c is inside a packet callback of session s. *)
+Theorem C13_session_close_quiescent : forall w1 s w2,
+  accept (w1 ++ CbSessClose s :: w2) = true ->
+  fold_left (pend_sess s) w1 0 = 0 /\ forall c, fold_left (pend_conn c) w1 0 <> s + 1.
+Proof. exact accept_session_close_quiescent. Qed.
+Print Assumptions C13_session_close_quiescent.
 
 (* ... and likewise for a connection. *)
 Theorem C13_no_callback_after_conn_close : forall w1 c w2,
@@ -63,13 +88,26 @@ Theorem C13_client_close_terminates : forall n c,
 Proof. exact client_close_terminates. Qed.
 Print Assumptions C13_client_close_terminates.
 
-(* non-vacuity: two connections, a session playing with 3 workers, a second connection attached, Server.Close
-   while a packet callback is still possible *)
-Definition ex_steps := [Accept; Accept; NewSession 0; Request 1; RequestS 0 0; Attach 1 0; Play 0 3; Packet 0; ServerClose; Packet 0].
+(* non-vacuity: two connections, a session playing with 3 workers, a second connection attached; the reader of
+   connection 0 is inside a packet callback and a UDP callback is in progress when Server.Close is called *)
+Definition ex_steps := [Accept; Accept; NewSession 0; Request 1; RequestS 0 0; Attach 1 0; Play 0 3; Packet 0;
+                        PacketBegin 0; SBegin 0; ServerClose; Packet 0].
 Example C13_example :
-  exists st, exec (init 3) ex_steps = Some st /\ sv st = Closing /\ all_closed st = false /\ measure st = 13 /\
-    trace st = [CbConnOpen 0; CbConnOpen 1; CbSessOpen 0 0; CbReq 1; CbReqS 0 0; CbPkt 0; CbPkt 0].
+  exists st, exec (init 3) ex_steps = Some st /\ sv st = Closing /\ all_closed st = false /\ measure st = 15 /\
+    trace st = [CbConnOpen 0; CbConnOpen 1; CbSessOpen 0 0; CbReq 1; CbReqS 0 0; CbSB 0; CbSE 0; CbPkt 0;
+                CbPktB 0 0; CbSB 0; CbPkt 0] /\
+    (* the session cannot finish, the reader cannot exit: the callbacks have to return first *)
+    step st (SessFinish 0) = None /\ step st (ReaderExit 0) = None /\ step st (MediaStop 0) = None.
 Proof. vm_compute. eexists. repeat split. Qed.
 Example C13_example_illegal :
-  afirst_bad (mkA [] []) [CbConnOpen 0; CbSessOpen 0 0; CbSessClose 0; CbPkt 0] 0 = Some 3.
+  afirst_bad a0 [CbConnOpen 0; CbSessOpen 0 0; CbSessClose 0; CbPkt 0] 0 = Some 3.
 Proof. reflexivity. Qed.
+(* what the seeded regression C13-2 produces: OnSessionClose while the reader is inside OnPacketRTP, more
+   frames delivered afterwards *)
+Example C13_example_seed :
+  afirst_bad a0 [CbConnOpen 0; CbSessOpen 0 0; CbReqS 0 0; CbSB 0; CbSE 0; CbPktB 0 0; CbSessClose 0; CbPktE 0; CbPktB 0 0] 0 = Some 6
+  /\ afirst_bad a0 [CbConnOpen 0; CbSessOpen 0 0; CbPktB 0 0; CbPktE 0; CbSessClose 0; CbPktB 0 0] 0 = Some 5
+  /\ afirst_bad a0 [CbConnOpen 0; CbSessOpen 0 0; CbSB 0; CbSessClose 0] 0 = Some 3
+  /\ afirst_bad a0 [CbConnOpen 0; CbSessOpen 0 0; CbPktB 0 0; CbConnClose 0] 0 = Some 3
+  /\ afirst_bad a0 [CbConnOpen 0; CbSessOpen 0 0; CbPktB 0 0; CbPktE 0; CbSB 0; CbSE 0; CbSessClose 0; CbConnClose 0] 0 = None.
+Proof. repeat split. Qed.
